@@ -464,6 +464,8 @@ func (fr *Frame) preludeCall(st *State, name string, fn *ssa.Function, args []Va
 			return Val{T: ok}, true
 		}
 		return Val{T: val}, true
+	case "__callArg2Of":
+		return Val{T: Select(ex.get(st, "CallArgB_"+sanitize(constString(cc.Args[0])), ArraySort(SInt, SRef)), args[1].T)}, true
 	case "__callArgOf":
 		return Val{T: Select(ex.get(st, "CallArg_"+sanitize(constString(cc.Args[0])), ArraySort(SInt, SRef)), args[1].T)}, true
 	case "__callResOf":
@@ -693,10 +695,15 @@ func (fr *Frame) applyContract(st *State, fn *ssa.Function, c *LoadedContract, a
 		if fn.Signature.Recv() != nil {
 			first = 1
 		}
-		for k := first; k < len(args); k++ {
+		nth := 0
+		for k := first; k < len(args) && nth < 2; k++ {
 			if args[k].T != nil && args[k].T.Sort == SRef {
-				ex.set(st, "CallArg"+sfx, Store(ex.get(st, "CallArg"+sfx, ArraySort(SInt, SRef)), n, args[k].T))
-				break
+				comp := "CallArg" + sfx
+				if nth == 1 {
+					comp = "CallArgB" + sfx // the second reference-typed argument
+				}
+				ex.set(st, comp, Store(ex.get(st, comp, ArraySort(SInt, SRef)), n, args[k].T))
+				nth++
 			}
 		}
 		ex.set(st, "CallN"+sfx, Add(n, IntLit(1)))
@@ -971,7 +978,7 @@ func (fr *Frame) loopMod(li *loopInfo, st *State) map[string]bool {
 
 // logCounterOf names the counter component of an append-only ghost log component ("" if comp is not one).
 func logCounterOf(comp string) string {
-	for _, p := range []string{"CallFn", "CallRet", "CallArg", "CallRes"} {
+	for _, p := range []string{"CallFn", "CallRet", "CallArgB", "CallArg", "CallRes"} {
 		if comp == p {
 			return "CallN"
 		}
